@@ -204,15 +204,15 @@ func (c limitsCfg) Shape() string {
 }
 
 type cfgOpts struct {
-	scopes   []string // candidate scopes
-	maxN     int
+	scopes    []string // candidate scopes
+	maxN      int
 	allowRate bool
 	// rateBurst is the burst of generated rate limiters; it is chosen by the
 	// caller above the number of acquisitions of the case so that a rate
 	// limiter never blocks (the statement is about concurrency limits; a rate
 	// limiter in the chain only exercises ordered acquisition and roll-back).
 	rateBurst int
-	force    string // scope that must carry a concurrency limit ("" = any)
+	force     string // scope that must carry a concurrency limit ("" = any)
 }
 
 func genCfg(p *prng.R, o cfgOpts) limitsCfg {
